@@ -63,7 +63,7 @@ fn armed(d: u64) -> u64 {
     d.div_ceil(MS) * MS
 }
 fn stalls_on() -> bool {
-    std::env::var("MAYV_STALL").map(|s| s.split(':').next().and_then(|n| n.parse::<u64>().ok()).unwrap_or(0) > 0).unwrap_or(false)
+    std::env::var("MAYV_STALL_AT").is_ok() || std::env::var("MAYV_STALL").map(|s| s.split(':').next().and_then(|n| n.parse::<u64>().ok()).unwrap_or(0) > 0).unwrap_or(false)
 }
 fn is_timeout(e: &std::io::Error) -> bool {
     matches!(e.kind(), std::io::ErrorKind::TimedOut | std::io::ErrorKind::WouldBlock)
